@@ -156,6 +156,35 @@ CLAIMED = {
         note="Partial: encoder staging buffer and compressor layers only propagate the bottom writers' exceptions - composition tied by "
              "fault injection, not proved. Interpretation: a rotate_output after an already REPORTED failure returns normally.",
         technique="Lean 4 proof over fault-schedule models + exhaustive fault-point injection via syscall interposition", design="§4 C16"),
+    "C03": dict(
+        text="Lean 4 per-layer theorems: every decoder byte access lies in a non-empty fetched window and the decoder sees exactly the "
+             "remaining input (window_nonempty, C05.runW_refines); reservations from announced lengths are bounded by one buffer "
+             "(reserve_bounded); timestamp arithmetic stays in int64 (C17.addTimeOffset_no_overflow), integer reads saturate (C07); "
+             "skip_item is iterative with linear fuel (C07.skip_exact_linear); every index get_readable_dname reads/writes is in bounds for "
+             "EVERY byte string (dname_in_bounds). Failing-input search on the implementation: valid files, structure-aware mutations "
+             "(lying length heads up to 2^64-1, tree edits, truncation), byte mutations, nesting bombs, random bytes through reader + "
+             "accessors + all renderers + block copies in-process under ASan/UBSan (allocation cap, alarm) and through the 5 CLI tools.",
+        note="Partial proof by nature: that every memory access of the C++ is one of the modelled kinds is established only by the "
+             "sanitizer-instrumented search; hash-flooding cost not modelled; UBSan alignment check excluded (hash.h type-punned loads, x86).",
+        technique="Lean 4 proofs of per-layer bounds + sanitizer-instrumented structure-aware mutation search", design="§4 C03"),
+    "C18": dict(
+        text="Lean 4 over a model of cdns-merge's two passes (any file system, any list of input names, repeats): merged_params_equal "
+             "(every merged block refers to a parameter set equal to its source's), rejected_contribute_nothing / "
+             "mismatch_contributes_nothing, blocks_in_order. Tied by the real cdns-merge / cdns-itemcount binaries (sanitizer builds from "
+             "the working tree) on tuples of 1..6 files with unreadable, empty, version-mismatched, truncated and duplicated members; "
+             "merged output read by the library reader and the independent Lean reader vs the expectation assembled from the Lean "
+             "model's structure; itemcount output vs independent counts for all option combinations.",
+        note="Trusted: parameter sets and block contents abstract ids in the model (their unchanged copying is C01/C09); Driver/Mrg.lean.",
+        technique="Lean 4 proof (invariant of pass 1 map) + differential correspondence with the real tools", design="§4 C18"),
+    "C20": dict(
+        text="Lean 4: schedule_independent (threads with private state and read-only shared data give, under EVERY interleaving, the "
+             "sequential per-thread results) + generated obligations over the inventory rebuilt by translator T2 from the working "
+             "tree's objects: no_shared_mutable (every writable static-storage symbol is const-qualified, thread-local or runtime data), "
+             "no_nonreentrant_call. Failing-schedule search: ThreadSanitizer build, 2..16 threads with independent exporter / reader / "
+             "renderer workloads (all compression modes), injected yields, per-thread results vs sequential run.",
+        note="Partial: sharing through application-provided pointers is outside the inventory (excluded by the property); libstdc++, "
+             "zlib, liblzma trusted thread-safe for distinct objects; C++ memory model trusted.",
+        technique="Lean 4 proof + translator-regenerated symbol inventory (decide) + ThreadSanitizer schedule search", design="§4 C20"),
 }
 REASON_PENDING = "check not built yet in this revision (work in progress; see DESIGN.md §8 build order)"
 
